@@ -440,7 +440,7 @@ def behaviour_text(b, rng):
     return "\n".join(L) + "\n"
 
 
-def rand_matprop(rng, idx, gloss, cls):
+def rand_matprop(rng, idx, gloss, cls, force=False):
     m = MatProp()
     m.name = "C45M%d" % idx
     m.material = rng.choice(["", "", "UO2"])
@@ -451,10 +451,16 @@ def rand_matprop(rng, idx, gloss, cls):
         decorate(rng, v, "in", used, gloss, cls)
         m.inputs.append(v)
     m.output = decorate(rng, Var(rng.choice(["y", "k", "res2"]), "real"), "out", used, gloss, cls)
-    for n in rng.sample(["a", "b", "c1"], rng.choice([1, 2, 3])):
+    npar = 4 if force else (rng.choice([2, 3, 4]) if cls == "long" else rng.choice([1, 2, 3]))
+    for k, n in enumerate(rng.sample(["a", "b", "c1", "d2"], npar)):
         v = Var(n, rng.choice(["real", "stress"]))
         decorate(rng, v, "par", used, gloss, cls, allow_phys=False)
-        v.dflt = [dec_short(rng) if cls == "short" or rng.random() < 0.4 else dec_long(rng, rng.choice([9, 12, 17]))]
+        if force:        # every parameter, whatever its rank, has a default value that needs many digits
+            v.dflt = [dec_long(rng, [17, 12, 9, 15][k])]
+        elif cls == "long":
+            v.dflt = [dec_long(rng, rng.choice([8, 9, 12, 15, 17]))]
+        else:
+            v.dflt = [dec_short(rng)]
         m.pars.append(v)
     for v in m.inputs + [m.output]:
         finalize_bounds(rng, v, m.unit_system, gloss, cls)
@@ -574,13 +580,18 @@ def run(ck):
     progs = []
     for i in range(nb_text):
         progs.append(rand_behaviour(rng, i, gloss, "short" if i % 3 else "long", force="array-bounds" if i == 0 else None))
-    mps = [rand_matprop(rng, i, gloss, "short" if i % 3 else "long") for i in range(nm)]
-    # twin laws for setParameter: same law, one default value replaced
+    mps = [rand_matprop(rng, i, gloss, "short" if i % 3 else "long", force=(i == 0)) for i in range(nm)]
+    # twin laws for setParameter: same law, the default values changed so far replaced (the changes accumulate in the library)
     twins = []
     for m in mps[:max(2, nm // 2)]:
-        p = rng.choice(m.pars)
-        newv = dec_short(rng) if rng.random() < 0.5 else dec_long(rng)
-        twins.append((m, p, newv, m.name + "twin"))
+        chosen = rng.sample(m.pars, min(len(m.pars), 2 if m is mps[0] else 1))
+        if m is mps[0] and m.pars[0] in chosen and len(m.pars) > 2:     # at least one parameter that is not the first
+            chosen = [m.pars[-1], m.pars[1]]
+        over = {}
+        for k, p in enumerate(chosen):
+            newv = dec_short(rng) if (rng.random() < 0.5 and m is not mps[0]) else dec_long(rng)
+            over = dict(over, **{p.name: newv})
+            twins.append((m, p, newv, m.name + "twin" + ("abc"[k] if k else ""), over))
     gendir = ck.path("gen")
     os.makedirs(gendir, exist_ok=True)
     files = []
@@ -588,9 +599,9 @@ def run(ck):
         with open(os.path.join(gendir, p.name + ".mfront"), "w") as f:
             f.write(p.text)
         files.append(p.name + ".mfront")
-    for (m, p, newv, tname) in twins:
+    for (m, p, newv, tname, over) in twins:
         with open(os.path.join(gendir, tname + ".mfront"), "w") as f:
-            f.write(matprop_text(m, rng, {p.name: newv}, tname))
+            f.write(matprop_text(m, rng, over, tname))
         files.append(tname + ".mfront")
     for k in range(0, len(files), 20):
         r = run_tool(ck, "mfront", ["--interface=generic"] + files[k:k + 20], gendir)
@@ -698,10 +709,20 @@ def run(ck):
                          {"behaviour": b.name, "symbol": name, "declared": val, "emitted": em.get(name), "mfront_file": b.text})
 
     # ---- (i) text level: material properties (generic interface)
+    def mp_block(m):
+        return {"mps": [], "isvs": [], "esvs": [], "pars": m.pars, "hidden": m.inputs}
+    mp_model = ck.run([driver], input="".join("emit %s %s\nwf %s %s\n" % (m.f, enc_block(mp_block(m)), m.f, enc_block(mp_block(m))) for m in mps),
+                      timeout=280).stdout.splitlines()
     mp_tables = {}
-    for m in mps:
+    for km, m in enumerate(mps):
         em = parse_symbols(open(os.path.join(gendir, "src", "%s-generic.cxx" % m.f)).read())
         mp_tables[m.name] = em
+        model = model_table(mp_model[2 * km]) if 2 * km < len(mp_model) else {}
+        stats["wf_checked"] += 1
+        if (mp_model[2 * km + 1] if 2 * km + 1 < len(mp_model) else "?") != "ok":
+            note("corr:model-precondition", "corr", "the declarations of %s do not satisfy the hypothesis of the theorems: %s" % (m.name, mp_model[2 * km + 1:2 * km + 2]),
+                 {"material_property": m.name, "mfront_file": m.text})
+        lean_exp = {n: v for n, v in model.items() if re.search(r"_(nParameters|Parameters|ParametersTypes|\w+_ParameterDefaultValue|\w+Bound)$", n)}
         exp = {m.f + "_nargs": "u:%d" % len(m.inputs), m.f + "_output": "t:" + m.output.ext,
                m.f + "_nParameters": "u:%d" % len(m.pars), m.f + "_Parameters": "s:" + ",".join(p.ext for p in m.pars),
                m.f + "_ParametersTypes": "i:" + ",".join("0" for _ in m.pars), m.f + "_mfront_mkt": "u:0",
@@ -716,6 +737,11 @@ def run(ck):
             for sfx, t in zip(SFX, expected_bounds(v).split(",")):
                 if t != "-":
                     exp["%s_%s_%s" % (m.f, v.ext, sfx)] = "r:" + t
+        for name, val in sorted(lean_exp.items()):           # the judge's expectations and the model's table must be the same thing
+            stats["symbols_compared"] += 1
+            if exp.get(name) != val:
+                note("corr:lean-emit:material-property", "corr", "Lean `emit` gives %s = %s, the declarations give %s" % (name, val, exp.get(name)),
+                     {"material_property": m.name, "symbol": name, "model": val, "declared": exp.get(name), "mfront_file": m.text})
         for name, val in sorted(exp.items()):
             stats["symbols_compared"] += 1
             if em.get(name) == val:
@@ -729,7 +755,8 @@ def run(ck):
                 g_ = em[name][2:] if (em.get(name) or "").startswith("r:") else "-"
                 cause = root_cause(mv[0], False, True, ["-", "-", e_, "-"] if name.endswith("PhysicalBound") else [e_],
                                    ["-", "-", g_, "-"] if name.endswith("PhysicalBound") else [g_])
-            note(cause or "%s:material-property:%s" % (site_of(kind, name, em), kind), "text",
+            site = GEN_SITE + ":writeParametersDefaultValuesSymbols" if kind == "parameter-default" else site_of(kind, name, em)
+            note(cause or "%s:material-property:%s" % (site, kind), "text",
                  "symbol %s: declared %s, generated source has %s" % (name, show_val(val), show_val(em.get(name)) if em.get(name) else "no such symbol"),
                  {"material_property": m.name, "symbol": name, "declared": val, "emitted": em.get(name), "mfront_file": m.text})
         for name, val in sorted(em.items()):
@@ -752,7 +779,7 @@ def run(ck):
     for b in compiled:
         jobs.append(("libC45_%s.so" % b.name, [os.path.join(gendir, "src", "%s-generic.cxx" % b.f), os.path.join(gendir, "src", "%s.cxx" % b.f)]))
     tu = ck.write("c45_mp_tu.cxx", "".join('#include "%s"\n' % os.path.join(gendir, "src", "%s-generic.cxx" % x)
-                                           for x in [m.f for m in mps] + [(m.material + "_" if m.material else "") + t for (m, _, _, t) in twins]))
+                                           for x in [m.f for m in mps] + [(m.material + "_" if m.material else "") + t for (m, _, _, t, _) in twins]))
     jobs.append(("libC45_MP.so", [tu]))
     libs = {}
     with ThreadPoolExecutor(max_workers=2) as ex:
@@ -818,11 +845,26 @@ def run(ck):
             ask(mplib, m.f, None, "str material", "[%s]" % m.material, "general", rep)
             for v in m.inputs:
                 ask(mplib, m.f, None, "mpbounds " + v.ext, expected_bounds(v), "mp-bounds", dict(rep, variable=v.ext), v)
+            first = len(lines)
             for p in m.pars:
                 ask(mplib, m.f, None, "mpbounds " + p.ext, expected_bounds(p), "mp-bounds", dict(rep, variable=p.ext), p)
                 ask(mplib, m.f, None, "mpdefault " + p.ext, bits(float(p.dflt[0])), "mp-default", dict(rep, variable=p.ext, declared_default=p.dflt[0]), p)
+            lean_q.append("read %s %s\n" % (m.f, enc_block(mp_block(m))))
+            lean_idx.append((first, len(lines), None))
+            # setParameter(<exported default value>) must leave the law as it is
+            probe = [[rng.uniform(0.5, 50.0) for _ in m.inputs] for _ in range(2)]
+            ref = []
+            for a in probe:
+                ref.append(len(lines))
+                ask(mplib, m.f, None, "mpcall %d %s" % (len(a), " ".join(bits(x) for x in a)), None, "reference", rep)
+            for p in m.pars:
+                ask(mplib, m.f, None, "mpsetdefault " + rng.choice([p.ext, p.name]), "ok", "setparameter", dict(rep, parameter=p.ext))
+                for a, r in zip(probe, ref):
+                    ask(mplib, m.f, None, "mpcall %d %s" % (len(a), " ".join(bits(x) for x in a)), ("same-as", r), "set-exported-default",
+                        dict(rep, parameter=p.ext, declared_default=p.dflt[0], arguments=[repr(x) for x in a]), p)
+                    stats["setparameter_calls"] += 1
         # setParameter = regeneration with that default value (twin law), compared on calls
-        for (m, p, newv, tname) in twins:
+        for (m, p, newv, tname, over) in twins:
             tf = (m.material + "_" if m.material else "") + tname
             args = [[rng.uniform(0.5, 50.0) for _ in m.inputs] for _ in range(4)]
             rep = {"material_property": m.name, "parameter": p.ext, "new_value": newv, "mfront_file": m.text}
@@ -846,6 +888,8 @@ def run(ck):
             continue
         if exp == "same-as-previous":
             exp = got[i - 1]
+        elif isinstance(exp, tuple) and exp[0] == "same-as":
+            exp = got[exp[1]] if exp[1] < len(got) else "?"
         hist["elm:" + what] = hist.get("elm:" + what, 0) + 1
         if g == exp:
             continue
@@ -869,7 +913,7 @@ def run(ck):
             key = {"names": "names:" + arg, "types": "types:" + arg}.get(query)
             if key:
                 model = ans.get(key)
-            elif query == "bounds":
+            elif query in ("bounds", "mpbounds"):
                 model = ",".join((ans.get("v:" + arg) or "?").split(",")[:4])
             else:
                 model = (ans.get("v:" + arg) or "?").split(",")[-1]
